@@ -872,6 +872,7 @@ class C10(WMode):
         cfg["shadow"] = True
         w = hist_weights(work=50)
         w["save"], w["crash_restart"] = 14, 12
+        w["set_records"] = 5
         cfg["weights"] = w
         if fam in ("linear", "hh"):
             cfg["mult"] = {"one": 2, "small": 3, "mid": 2, "zero": 1, "ceil": 1, "half": 1, "huge": 1}
@@ -1116,7 +1117,7 @@ class C16(WMode):
         cfg["shared"] = True
         cfg["shadow"] = True
         cfg["weights"] = hist_weights(work=50, views=True)
-        cfg["weights"].update({"attach": 10, "drop_view": 6, "drop_owner": 2, "crash_restart": 2})
+        cfg["weights"].update({"attach": 10, "drop_view": 6, "drop_owner": 2, "crash_restart": 2, "set_records": 3})
         cfg["mult"] = {"one": 3, "small": 4, "mid": 1, "zero": 1} if fam in LOG or fam == "hll" else {"one": 2, "small": 3, "mid": 1, "zero": 1, "ceil": 1, "huge": 1}
         if fam == "hll":
             cfg["p"] = rng.choice([7, 7, 8, 9, 10])
@@ -1347,24 +1348,24 @@ class C06Checker(Checker):
                 if t > nr1:
                     w.probes["key_beyond_reserved_range"] += 1
 
-    def accounting(self, w, ev, ctx, info):
-        sk = info["sk"]
-        ref = self.get_ref(sk)
-        ds, ptr = ev.get("ds", 1), int(ev.get("ptr", 0))
+    def mirror(self, w, ev, ctx, info, ref, actual_refill=None):
+        """Reference walk of the whole event. Refilled batches are predicted from the seeded
+        generator (numba's stream equals RandomState's); if `actual_refill` is given it is
+        used for the (single) refill instead. Returns (table, ptr, used, refills, ambiguous,
+        last_batch) or None when the key's counters are not identifiable."""
         from .world import batch_for
 
+        ds, ptr = ev.get("ds", 1), int(ev.get("ptr", 0))
         batch = batch_for(ds)
         rs = None
-        tab = ctx["tab"]
+        tab = ctx["tab"].copy()
         ambiguous = False
         refills = 0
-        total_v = 0
         used_total = 0
         for k, v in info["exp"]:
-            total_v += v
             cells = w.owner_cells(w.ident(k))
             if cells is False:
-                return
+                return None
             c0 = min(int(tab[r, c]) for r, c in enumerate(cells))
             c, rem = c0, v
             while True:
@@ -1373,15 +1374,55 @@ class C06Checker(Checker):
                 ambiguous = ambiguous or amb
                 if rem == 0:
                     break
-                if rs is None:
-                    rs = np.random.RandomState((ds + 1) & 0xFFFFFFFF)
-                batch = rs.random_sample(2048)
+                if actual_refill is not None:
+                    batch = actual_refill
+                else:
+                    if rs is None:
+                        rs = np.random.RandomState((ds + 1) & 0xFFFFFFFF)
+                    batch = rs.random_sample(2048)
                 ptr = 0
                 refills += 1
             if c != c0:
                 for r, col in enumerate(cells):
                     if int(tab[r, col]) < c:
                         tab[r, col] = c
+        return tab, ptr, used_total, refills, ambiguous, batch
+
+    def accounting(self, w, ev, ctx, info):
+        from .world import batch_for
+
+        sk = info["sk"]
+        ref = self.get_ref(sk)
+        total_v = sum(v for _, v in info["exp"])
+        if int(sk.n_added()) - ctx["nadd"] != total_v:
+            self.fail("n_added_not_grown_by_v", f"{ev['op']}: n_added grew by {int(sk.n_added()) - ctx['nadd']}, expected {total_v}")
+        m = self.mirror(w, ev, ctx, info, ref)
+        if m is None:
+            return
+        tab, ptr, used_total, refills, ambiguous, batch = m
+        first = batch_for(ev.get("ds", 1))
+        if refills:
+            w.probes["batch_refilled"] += refills
+            cur = sk.rand_nums
+            if not ((cur >= 0.0).all() and (cur < 1.0).all()):
+                self.fail("draw_outside_unit_interval", ev["op"])
+            if float((cur == first).mean()) > 0.01:
+                self.fail("batch_recycled", f"{ev['op']}: after the batch was exhausted {int((cur == first).sum())} of 2048 "
+                                            f"draws are the old ones")
+            if not np.array_equal(cur, batch):
+                # the code's generator is not the stream the simulator predicted: legal. With a
+                # single refill the batch actually drawn is observable and the walk is redone
+                # with it; with several, intermediate batches are gone and the event cannot be
+                # mirrored.
+                w.probes["refill_not_predicted_by_seeded_generator"] += 1
+                if refills > 1:
+                    w.probes["unmirrorable_multi_refill_event"] += 1
+                    return
+                m = self.mirror(w, ev, ctx, info, ref, actual_refill=np.array(cur))
+                tab, ptr, used_total, refills, ambiguous, batch = m
+        else:
+            if not np.array_equal(sk.rand_nums, first):
+                self.fail("batch_changed_without_exhaustion", ev["op"])
         if ambiguous:
             w.probes["draw_inside_ambiguity_band_skipped"] += 1
             return
@@ -1390,20 +1431,6 @@ class C06Checker(Checker):
             self.fail("counter_walk_differs_from_decision_law", f"{ev['op']}: cell{idx.tolist()} model={int(tab[tuple(idx)])} actual={int(sk.cms[tuple(idx)])} (ptr0={ev.get('ptr',0)}, refills={refills})")
         if int(sk.rand_ptr) != ptr:
             self.fail("draw_pointer_mismatch", f"{ev['op']}: rand_ptr={int(sk.rand_ptr)} model={ptr} (consumed {used_total} draws, refills={refills})")
-        if int(sk.n_added()) - ctx["nadd"] != total_v:
-            self.fail("n_added_not_grown_by_v", f"{ev['op']}: n_added grew by {int(sk.n_added()) - ctx['nadd']}, expected {total_v}")
-        if refills:
-            w.probes["batch_refilled"] += refills
-            if not np.array_equal(sk.rand_nums, batch):
-                self.fail("batch_not_replenished_from_generator", f"{ev['op']}: after {refills} refill(s) the batch is not the generator's next 2048 draws")
-            first = batch_for(ds)
-            if np.array_equal(sk.rand_nums, first):
-                self.fail("batch_recycled", f"{ev['op']}: batch unchanged after refill")
-            if not ((sk.rand_nums >= 0.0).all() and (sk.rand_nums < 1.0).all()):
-                self.fail("draw_outside_unit_interval", ev["op"])
-        else:
-            if not np.array_equal(sk.rand_nums, batch_for(ds)):
-                self.fail("batch_changed_without_exhaustion", ev["op"])
         if used_total:
             w.probes["probabilistic_decisions_mirrored"] += used_total
 
@@ -1445,6 +1472,8 @@ class C06(WMode):
 
         cfg["max_count"], cfg["num_reserved"] = rng.choice(LOG8_GRID if fam == "log8" else LOG16_GRID)
         cfg["sub"] = "law" if rng.random() < 0.4 else "history"
+        if rng.random() < 0.12:
+            return self.draw_dist(rng, cfg)
         w = hist_weights(work=60)
         if cfg["sub"] == "law":
             w["law"] = 60
@@ -1453,12 +1482,41 @@ class C06(WMode):
         cfg["mult"] = {"one": 3, "small": 4, "mid": 2, "zero": 1, "big": 1 if small and fam == "log8" else 0}
         return cfg
 
+    DIST_CELLS = [(300, 0, 100), (1000, 15, 400), (300, 0, 220), (500, 3, 50), (500, 3, 400), (1000, 15, 800),
+                  (5000, 15, 4000), (2000, 15, 1500)]
+
+    def draw_dist(self, rng, cfg):
+        """C06(d): N unit adds of one collision-free key with every draw coming from the
+        code's own refill path; the final counter is one sample of the Markov chain."""
+        cells = self.DIST_CELLS[:2] if self.tier == "quick" else self.DIST_CELLS
+        mc, nr, N = rng.choice(cells)
+        cfg.update(family="log8", width=1, depth=1, max_count=mc, num_reserved=nr, n_nodes=1, sub="dist",
+                   dist_cell=f"log8/{mc}/{nr}/{N}", pool=["6b"], factory=False)
+        cuts = sorted(rng.randrange(0, N + 1) for _ in range(rng.randrange(0, 4)))
+        parts = [b - a for a, b in zip([0] + cuts, cuts + [N])]
+        cfg["dist_parts"] = [p for p in parts if p > 0]
+        cfg["n_events"] = len(cfg["dist_parts"])
+        cfg["weights"] = {"work": 1}
+        cfg["mult"] = {"one": 1}
+        return cfg
+
+    tier = "quick"
+
+    def hist(self, w):
+        if w.cfg.get("sub") != "dist":
+            return None
+        return {w.cfg["dist_cell"]: int(w.nodes[0].primary.cms[0, 0])}
+
     def checker(self, cfg):
         return C06Checker(cfg)
 
     def gen(self, rng, w, gs):
         from .gen import gen_event
 
+        if w.cfg.get("sub") == "dist":
+            v = w.cfg["dist_parts"][w.n_events]
+            # ptr = 2048: the first probabilistic decision already refills from the generator
+            return {"op": "add", "node": 0, "via": 0, "key": "6b", "v": v, "ds": rng.getrandbits(31), "ptr": 2048}
         kind = wchoice(rng, w.cfg["weights"])
         if kind != "law":
             wts = dict(w.cfg["weights"])
@@ -1479,6 +1537,34 @@ class C06(WMode):
 
     def nontrivial(self, w):
         return w.probes["probabilistic_decisions_mirrored"] > 0 or w.counters["law"] > 0
+
+    def batch_check(self, agg, seed):
+        """C06(d): chi-square of the sampled final counters against the exact Markov chain;
+        threshold chosen for a false-alarm probability <= 1e-9 per cell."""
+        from .models import chi_square_vs_exact, find_base_ref, markov_counter_distribution
+
+        report = {}
+        bad = None
+        for cell, hist in sorted(agg.hist.items()):
+            n = sum(hist.values())
+            fam, mc, nr, N = cell.split("/")
+            mc, nr, N = int(mc), int(nr), int(N)
+            if n < 300:
+                report[cell] = {"samples": n, "skipped": "fewer than 300 samples"}
+                continue
+            sk = make_sketch({"family": "log8", "width": 1, "depth": 1, "max_count": mc, "num_reserved": nr})
+            base = float(sk.base)
+            exact = markov_counter_distribution(base, nr, 255, N)
+            stat, df, p = chi_square_vs_exact({int(k): v for k, v in hist.items()}, exact)
+            mean_dec = sum(LogRef(base, nr, 255).decode(int(k)) * v for k, v in hist.items()) / n
+            report[cell] = {"samples": n, "chi2": round(stat, 2), "df": df, "p_value": p, "mean_estimate": round(mean_dec, 2), "true_count": N}
+            if p < 1e-9 and bad is None:
+                bad = (cell, report[cell], hist)
+        self._dist_report = report
+        return bad
+
+    def extra_evidence(self):
+        return {"distribution_cells_vs_exact_markov_chain": getattr(self, "_dist_report", {})}
 
 
 MODES = {"C01": C01(), "C02": C02(), "C03": HHMode("C03"), "C04": HHMode("C04"), "C05": C05(), "C06": C06(), "C09": C09(),
